@@ -701,6 +701,8 @@ class ExprMixin(object):
         for st1, src in self.ev(src_node, st):
             if mode == "items" and not isinstance(src.ty, Map):
                 return None
+            if mode == "keys" and isinstance(src.ty, List):
+                src = core.elems(src)       # keyed by the element itself: duplicates do not matter
             if mode == "keys" and not isinstance(src.ty, (Map, Set)):
                 return None
             dom = core.mdom(src) if isinstance(src.ty, Map) else src
